@@ -30,6 +30,7 @@ struct LayoutSession : Session {
     std::vector<Edge> es;
     CompoundConstraints ccs;
     ConstrainedFDLayout *alg = nullptr;
+    ConstrainedMajorizationLayout *maj = nullptr;      // cfg.majorization: the stress-majorization layout with the same constraints
     SimConv *conv = nullptr;
     SimPre *pre = nullptr;
     RootCluster *root = nullptr;
@@ -269,6 +270,12 @@ void LayoutSession::run() {
         maxIter = (unsigned)cfg.i("maxiter", 100);
         conv = new SimConv(this, cfg.num("tol", 1e-4), maxIter);
         pre = new SimPre(this);
+        if (cfg.boolean("majorization", false)) {
+            maj = new ConstrainedMajorizationLayout(rs, es, nullptr, cfg.num("ideal", 50), StandardEdgeLengths, conv, cfg.boolean("preiteration", true) ? pre : nullptr, cfg.boolean("neighbourStress", false));
+            maj->setConstraints(&ccs);
+            maj->setUnsatisfiableConstraintInfo(&ux, &uy);
+            return;
+        }
         alg = new ConstrainedFDLayout(rs, es, cfg.num("ideal", 50), StandardEdgeLengths, conv, cfg.boolean("preiteration", true) ? pre : nullptr);
         alg->setConstraints(ccs);
         alg->setUnsatisfiableConstraintInfo(&ux, &uy);
@@ -307,7 +314,15 @@ void LayoutSession::run() {
             if (f.has("lock") || f.has("unlock")) lockEvents.push_back(f);
         }
         std::string e2;
-        if (o == "makeFeasible") {
+        if (maj) {
+            if (o != "run") continue;
+            bool x = op.boolean("x", true), y = op.boolean("y", true);
+            e2 = guarded([&] { maj->run(x, y); });
+            if (e2.empty()) {
+                probe("layout.majorization-run");
+                if (convCalls > 0) { lastProjectionByMakeFeasible = false; dimJudged[0] = x; dimJudged[1] = y; madeFeasible = true; }
+            }
+        } else if (o == "makeFeasible") {
             e2 = guarded([&] { alg->makeFeasible(op.num("xBorder", 1), op.num("yBorder", 1)); });
             if (e2.empty()) { madeFeasible = true; ranOnceSinceProjection = false; lastProjectionByMakeFeasible = true; dimJudged[0] = dimJudged[1] = true; lastRunBothAxes = true; probe("layout.makeFeasible"); }
         } else if (o == "run") {
@@ -351,6 +366,7 @@ void LayoutSession::run() {
     curOp = -1;
     if (!dead) {
         std::string e3 = guarded([&] {
+            if (maj) { delete maj; for (auto c : ccs) delete c; for (auto r : rs) delete r; delete conv; delete pre; return; }
             alg->freeAssociatedObjects();       // rectangles, compound constraints, cluster hierarchy
             delete alg; delete conv; delete pre;
         });
@@ -366,7 +382,7 @@ Json genLayoutSession(Rng &r, const std::string &tier, int flavour /*0 constrain
     Json cfg = Json::obj();
     int n = r.range(tier == "thorough" ? 4 : 3, 12);
     if (r.chance(0.03)) n = r.range(1, 2);
-    bool overlaps = flavour == 1 || flavour == 2;
+    bool overlaps = flavour == 1 || flavour == 2;      // flavour 3: ConstrainedMajorizationLayout with constraints (connected graph, no makeFeasible)
     bool coincident = r.chance(0.15);
     std::vector<double> w(n), h(n), Wx(n), Wy(n);     // sizes and hidden witness placement
     Json rects = Json::arr();
@@ -383,8 +399,8 @@ Json genLayoutSession(Rng &r, const std::string &tier, int flavour /*0 constrain
     }
     cfg.set("rects", rects);
     Json edges = Json::arr();
-    bool edgeless = r.chance(0.08);
-    for (int i = 1; i < n && !edgeless; i++) if (r.chance(0.75)) { Json e = Json::arr(); e.push((long)r.below(i)); e.push(i); edges.push(e); }
+    bool edgeless = flavour != 3 && r.chance(0.08);
+    for (int i = 1; i < n && !edgeless; i++) if (flavour == 3 || r.chance(0.75)) { Json e = Json::arr(); e.push((long)r.below(i)); e.push(i); edges.push(e); }
     for (int k = 0; k < n / 3 && !edgeless; k++) { int a = (int)r.below(n), b = (int)r.below(n); if (a != b) { Json e = Json::arr(); e.push(a); e.push(b); edges.push(e); } }
     cfg.set("edges", edges);
     cfg.set("ideal", r.pick(std::vector<double>{30, 50, 80}));
@@ -510,8 +526,10 @@ Json genLayoutSession(Rng &r, const std::string &tier, int flavour /*0 constrain
     }
     cfg.set("ccs", ccs);
     cfg.set("avoidOverlaps", overlaps);
+    bool major = flavour == 3;
+    if (major) { cfg.set("majorization", true); cfg.set("maxiter", (long)r.pick(std::vector<int>{10, 30})); }
     if (overlaps && !clustered && r.chance(0.3) && n >= 3) { Json ex = Json::arr(); Json g = Json::arr(); int a = (int)r.below(n), b = (int)r.below(n); if (a != b) { g.push(a); g.push(b); ex.push(g); cfg.set("exempt", ex); } }
-    std::string style = std::string(overlaps ? "overlaps" : "constraints") + (clustered ? fmt("+%zuclusters", clusters.size()) : "");
+    std::string style = std::string(flavour == 3 ? "majorization" : overlaps ? "overlaps" : "constraints") + (clustered ? fmt("+%zuclusters", clusters.size()) : "");
     cfg.set("style", style);
     s.set("cfg", cfg);
     // ops: the user actor
@@ -530,14 +548,14 @@ Json genLayoutSession(Rng &r, const std::string &tier, int flavour /*0 constrain
         if (fl.size()) o.set("faults", fl);
         ops.push(o);
     };
-    bool mf = flavour == 1 ? true : r.chance(0.5);
+    bool mf = flavour == 1 ? true : flavour == 3 ? false : r.chance(0.5);
     if (mf) { Json o = Json::obj(); o.set("op", "makeFeasible"); ops.push(o); }
     int runs = r.range(1, 3);
     for (int k = 0; k < runs; k++) {
         if (r.chance(0.15)) { Json o = Json::obj(); o.set("op", "runOnce"); ops.push(o); }
         else runOp();
         if (r.chance(0.1)) { Json o = Json::obj(); o.set("op", "output"); if (r.chance(0.5)) { Json fl = Json::arr(); Json f = Json::obj(); f.set("fopen", "ENOSPC"); fl.push(f); o.set("faults", fl); } ops.push(o); }
-        if (!mf && r.chance(0.2)) { Json o = Json::obj(); o.set("op", "makeFeasible"); ops.push(o); mf = true; }
+        if (!mf && flavour != 3 && r.chance(0.2)) { Json o = Json::obj(); o.set("op", "makeFeasible"); ops.push(o); mf = true; }
     }
     s.set("ops", ops);
     return s;
@@ -549,7 +567,7 @@ static Json genLayoutPlan(const std::string &prop, uint64_t seed, const std::str
     Json ss = Json::arr();
     int nsess = r.chance(0.35) ? 2 : 1;
     // C07 also judges layouts with overlap avoidance (user constraints from a non-overlapping witness), e.g. after makeFeasible() alone
-    for (int i = 0; i < nsess; i++) ss.push(genLayoutSession(r, tier, prop == "C08" ? 1 : (r.chance(0.35) ? 2 : 0)));
+    for (int i = 0; i < nsess; i++) ss.push(genLayoutSession(r, tier, prop == "C08" ? 1 : (r.chance(0.35) ? 2 : r.chance(0.2) ? 3 : 0)));
     if (r.chance(0.25)) ss.push(genOverlapSession(r, "quick"));     // shares Rectangle::xBorder/yBorder with makeFeasible
     p.set("sessions", ss);
     return p;
